@@ -223,13 +223,22 @@ class FileScanHelper:
             try:
                 POGGER.info("Starting file to fix '$'.", next_file_name)
 
+                # Apply every fix level to a scratch copy, and only copy the result
+                # back once all levels have completed.  That way, an error in a
+                # later level does not leave the file in a partially fixed state.
+                with tempfile.NamedTemporaryFile() as temp_output:
+                    scratch_file_name = temp_output.name
+                self.__fix_temporary_files.append(scratch_file_name)
+                shutil.copyfile(next_file, scratch_file_name)
                 did_fix_file = self.__process_file_fix(
-                    next_file,
+                    scratch_file_name,
                     next_file_name,
                     fix_debug,
                     fix_file_debug,
                     fix_nolog_rescan,
                 )
+                if did_fix_file:
+                    shutil.copyfile(scratch_file_name, next_file)
 
                 POGGER.info("Ending file to fix '$'.", next_file_name)
                 did_succeed = True
